@@ -249,3 +249,7 @@ Definition key_dm (k : addr * did * mid) : did * mid := let '(_, d, m) := k in (
 Definition total (dm : did * mid) (b : amap (addr * did * mid) Z) : Z :=
   zsum (map snd (filter (fun e => eqb (key_dm (fst e)) dm) b)).
 Definition holders_total (s : state) (d : did) (m : mid) : Z := total (d, m) (bal s).
+
+(** did the [n]-th step of a history succeed? *)
+Definition ok_at (s : state) (steps : list step) (n : nat) : bool :=
+  ok (run s (firstn n steps)) (nth n steps Block).
